@@ -525,4 +525,4 @@ def run_shard(ctx):
     if ctx.shard == 0:
         ctx.extra["unclassified_entry_points"] = ", ".join(discovery()[:80])
         ctx.extra["entry_points_in_table"] = len(names)
-    ctx.run_given(mk, ctx.budget(9000, 120000))
+    ctx.run_given(mk, ctx.budget(9000, 70000))
